@@ -335,6 +335,15 @@ def check_branch_family(chk, it, tabs, tier='quick'):
 def check_ignore_equivalence(chk, it, rule_dead='R03.3'):
     """every instruction: ignore mode emits nothing, keeps the stack, consumes the same immediates"""
     n = 0
+
+    def label_count(p):
+        ls = p.state.get('ls')
+        ln = ls['labels'].get('length') if isinstance(ls, dict) and isinstance(ls.get('labels'), dict) else None
+        return ln
+    # reference: the label stack after a dead `nop; end` - a dead instruction, structured or not, followed by the same `end` must leave
+    # the same labels (a dead block that pushes a label which its dead `end` does not pop shifts every later branch by one level)
+    nop_dead = [p for p in it.explore(templates.dispatch_setup(it, templates.tokens_for(oracle.BY_NAME['nop']), ['i64'], 0, 0, 1)) if p.ret == 1]
+    want_labels = label_count(nop_dead[0]) if len(nop_dead) == 1 else None
     for row in oracle.ROWS:
         cls = row['sem'].get('cls')
         if cls in ('else', 'end'):
@@ -395,6 +404,11 @@ def check_ignore_equivalence(chk, it, rule_dead='R03.3'):
                        '%s consumes immediates %r in dead code but %r in live code: the decoder loses synchronisation after dead code'
                        % (row['name'], shape, sorted(live_logs)), site)
             chk.expect(p.state['w']['ignore'] == 1, 'R03.3', 'ignore-stays:' + row['name'], '%s leaves ignore mode' % row['name'], site)
+            if want_labels is not None:
+                chk.expect(label_count(p) == want_labels, 'R03.3', 'ignore-keeps-labels:' + row['name'],
+                           '%s (with its `end`) in dead code leaves %r labels on the label stack, a dead nop leaves %r: the labels of the '
+                           'enclosing live blocks are shifted, so later branches reach another block\'s end'
+                           % (row['name'], label_count(p), want_labels), site)
     # branches in dead code may name labels of dead blocks, which the writer does not track: their depth can reach or exceed the number of
     # live labels (`return; block; ...; br_table 0 1; end` is valid).  Dead branches with such depths must be skipped like any other dead
     # instruction - no label lookup, no failure, no abort
